@@ -22,6 +22,8 @@ for name in names:
     meta = json.load(open(f"{d}/meta.json"))
     prop = meta["property"]
     ids = [prop] + [i for i in meta.get("also_check", []) + extra.get("*", []) if i != prop]
+    if "--light-also" in sys.argv:  # skip the four long-running checks unless they are the change's own or caught it before
+        ids = [prop] + [i for i in ids[1:] if i not in ("C01", "C02", "C03", "C07") or i in (meta.get("detected_by") or [])]
     wt = tempfile.mkdtemp(prefix="seedrun_", dir="/tmp"); os.rmdir(wt)
     out = tempfile.mkdtemp(prefix="seedout_", dir="/tmp")
     subprocess.run(f"git -C /repo worktree add -q --detach {wt} HEAD", shell=True, check=True)
